@@ -13,7 +13,7 @@ for every input WITHOUT any arithmetic law (Arith has none).  Conventions (those
     -> `Arith.ofNat k`; 0.5 -> `((1 : α) / Arith.ofNat 2)`; `x.shape[0]` used as a float -> `(Arith.ofNat x.size : α)`;
   * `e ** 2` -> `(e * e)` (what numba emits), any other `**` and `pow(a, b)` -> `Arith.pow`; `/` -> `/`;
   * `np.sqrt np.abs np.log np.log2 np.arccos max min np.pi FLOAT32_MAX` -> the `Arith` fields; `np.sin np.cos np.arcsin`
-    -> `Trig`; `np.radians(k)` -> `Arith.ofNat k * (Arith.pi / Arith.ofNat 180)`; `float(e)`, `np.float64(e)`,
+    -> `Trig`; `np.empty(n)` -> `mkEmpty n` (a local array, stored to with `wr`); `vinv[i, j]` -> `rd (rd vinv i) j`; `np.radians(k)` -> `Arith.ofNat k * (Arith.pi / Arith.ofNat 180)`; `float(e)`, `np.float64(e)`,
     `np.float32(e)` -> `e` (precision is not modelled);
   * comparisons of floats: `a < b`, `a <= b` (and `>` / `>=`, flipped) are the decidable `<` / `≤` of Arith, `a == b` is
     the `BEq` test `(a == b)`, `a != b` is `(!(a == b))`; a load-free condition with `and` / `or` / `not` is ONE Boolean
@@ -52,6 +52,7 @@ KERNELS = [
     ("correct_alternative_cosine", dict(d="P")), ("true_angular_from_alt_cosine", dict(d="P")),
     ("correct_alternative_hellinger", dict(d="P")), ("correct_alternative_jaccard", dict(v="P")),
     ("haversine", V), ("tsss", V),
+    ("mahalanobis", dict(x="arrP", y="arrP", vinv="arr2P")),
 ]
 
 UNARY = {"np.sqrt": "Arith.sqrt", "np.abs": "Arith.abs", "np.log": "Arith.log", "np.log2": "Arith.log2",
@@ -165,6 +166,8 @@ class MFn(Fn):
                 return self.exF(e.args[0], env)
             if f == "np.radians" and self.ty(e, env) == "P":
                 return "((Arith.ofNat %d : α) * ((Arith.pi : α) / Arith.ofNat 180))" % e.args[0].value
+            if f == "np.empty" and len(e.args) == 1 and self.ty(e, env) == "arrP":
+                return "(mkEmpty %s : Array α)" % self.ex(e.args[0], env)
             if f == "np.sum" and self.ty(e, env) == "P":
                 return "(Arith.ofNat (countNZ %s) : α)" % e.args[0].left.id
         if isinstance(e, ast.BinOp) and self.ty(e, env) == "P":
@@ -231,6 +234,14 @@ inductive LoopOut (σ ρ : Type) where
 /-- array load; `none` = out of bounds (undefined behaviour in the numba kernel) -/
 @[inline] def rd {{α : Type}} (a : Array α) (i : Int) : Option α := if 0 ≤ i then a[i.toNat]? else none
 
+/-- array store; `none` = out of bounds -/
+@[inline] def wr {{α : Type}} (a : Array α) (i : Int) (v : α) : Option (Array α) :=
+  if 0 ≤ i ∧ i.toNat < a.size then some (a.setIfInBounds i.toNat v) else none
+
+/-- `np.empty(n)`: `n` cells of unspecified content (here: zeros; the refinement theorems show that every cell is
+stored to before it is loaded) -/
+def mkEmpty {{α : Type}} [Zero α] (n : Int) : Array α := Array.replicate n.toNat 0
+
 /-- `np.sum(a != 0)` as an integer -/
 def countNZ {{α : Type}} [Arith α] (a : Array α) : Nat := a.toList.countP (fun v => !(v == 0))
 
@@ -240,7 +251,7 @@ variable {{α : Type}} [Arith α]
 
 
 STUB_ALL = "--stub-all" in sys.argv
-MLEAN_TY = {"P": "α", "arrP": "Array α", "Int": "Int"}
+MLEAN_TY = {"P": "α", "arrP": "Array α", "Int": "Int", "arr2P": "Array (Array α)"}
 
 
 def stub(kname, ptypes, why):
